@@ -179,6 +179,8 @@ def _is_metadata_iter(it):
         v = x.val
         if isinstance(v, dict) and set(v) >= {'count', 'size'}:
             return True
+        if v == 'count' and it.k == 'tuple':
+            return True     # the loop over the counter table was unrolled
         if isinstance(v, (list, tuple)) and any((isinstance(t, tuple) and t and t[0] == 'count') or t == 'count' for t in v):
             return True
     return False
@@ -274,24 +276,27 @@ def format_facts(ctx):
     facts['unique'] = sorted(uniq)
     # shard directory names
     finit = ctx.method('FanoutCache', '__init__')
-    shard_expr = None
-    for n in ast.walk(finit.node):
-        if isinstance(n, ast.Call) and isinstance(n.func, ast.Name) and n.func.id == 'Cache':
-            for k in n.keywords:
-                if k.arg == 'directory' and isinstance(k.value, ast.Call) and len(k.value.args) == 2:
-                    shard_expr = k.value.args[1]
-    if shard_expr is None:
+    namev = None
+    for p in ctx.paths(finit, 'plain'):
+        for e in p.trace:
+            if e.kind == 'NEW' and e.d['name'] == 'Cache':
+                dv = e.d['kwargs'].get('directory') or (e.d['args'][0] if e.d['args'] else None)
+                if dv is not None and dv.k == 'ext' and dv.a[0] == 'os.path.join':
+                    ja = p.trace[dv.a[1]].d['args']
+                    if len(ja) == 2:
+                        namev = ja[1]
+    if namev is None:
         raise AnalysisError('P3: shard directory expression not found in FanoutCache.__init__')
-    from .interp import St
+    # the name is a format of the shard number: '<hole>' with a known format spec
+    if not (namev.k == 'str' and namev.a[0].startswith('⟦') and namev.a[0].endswith('⟧') and namev.a[0].count('⟦') == 1
+            and len(namev.a) > 2 and len(namev.a[2]) == 1 and namev.a[2][0] is not None
+            and len(namev.a[1]) == 1 and namev.a[1][0].k == 'elem'
+            and namev.a[1][0].a[0].k == 'term' and namev.a[1][0].a[0].a[0] == 'range'
+            and len(namev.a[1][0].a[0].a[1]) == 1):
+        raise AnalysisError('P3: shard directory name is not a foldable function of the shard number')
     names = {}
     for num in (0, 7, 123):
-        st = St(finit)
-        st.env = {'num': C(num)}
-        r = it.eval(shard_expr, st)
-        v = r[0][0]
-        if not getattr(v, 'is_const', False):
-            raise AnalysisError('P3: shard directory name is not a foldable function of the shard number')
-        names[str(num)] = v.val
+        names[str(num)] = format(num, namev.a[2][0])
     facts['shard_dirs'] = names
     # sub-caches: constant path components between the fanout directory and the name parts
     sub = {}
